@@ -135,6 +135,8 @@ def run(chk):
             chk.violation("CLI: malformed pair not rejected (exit %s, result files %s): %s" % (rep["rc"], [f["file"] for f in rep["files"]], c["defect"]),
                           {"case": {k: c[k] for k in ("genes", "tes", "windows")}, "drop_gene_cols": c.get("drop_gene_cols", []),
                            "drop_te_cols": c.get("drop_te_cols", []), "defect": c["defect"], "log": rep["log"][-600:]})
+    from .. import guardunit
+    guardunit.run(chk, chk.rng("guards"), {"split", "strand"})
     for c in vs[:2]:
         chk.sample({"defect": c["defect"], "n_genes": len(c["genes"]), "n_tes": len(c["tes"])})
     return chk.finish(rule=RULE)
